@@ -37,6 +37,8 @@ REAL_STUB = {
     "tbb": {"real": ["rkcommon wrappers"],
             "stub": ["TBB (parallel_for, task_arena::enqueue, task_group, global_control) implemented to the documented contract over simulated worker threads",
                      "pthread/semaphore/futex blocking semantics", "clock, core count"]},
+    "glibc": {"real": ["rkcommon", "the real glibc allocator (no sanitizer) behind the fault wrapper", "libstdc++"],
+              "stub": ["allocation failures injected at the wrapped allocator entry points"]},
     "asan": {"real": ["rkcommon", "glibc allocator behind the fault wrapper", "libstdc++"],
              "stub": ["stdio file layer (served from memory, short reads / open failures injected)",
                       "allocator entry points (failure injection)"]},
@@ -52,7 +54,7 @@ PROPS = {
     "C02": {"scen": [("c02", ["internal", "internalp", "omp", "tbb", "debug"])], "quick": 32, "thorough": 900},
     "C13": {"scen": [("c13", ["internal", "omp", "tbb", "debug"])], "quick": 28, "thorough": 600},
     "C20": {"scen": [("c20trace", ["debug"]), ("c20traceg", ["debug"]), ("c20img", ["debug"])], "quick": 24, "thorough": 600},
-    "C14": {"scen": [("c14", ["asan"]), ("c14tbb", ["asantbb"])], "quick": 20, "thorough": 600},
+    "C14": {"scen": [("c14", ["asan"]), ("c14tbb", ["asantbb"]), ("c14glibc", ["glibc"])], "quick": 24, "thorough": 600},
     "C15": {"scen": [("c15", ["asan"])], "quick": 20, "thorough": 600},
     "C16": {"scen": [("c16", ["asan"])], "quick": 20, "thorough": 600},
 }
